@@ -71,7 +71,8 @@ def gen(tier, seed):
     rng = core.seeded_rng(seed, 'c16')
     n = 6000 if tier == 'quick' else 100000
     for i in range(n):
-        so = G.SchemaOpts(keystrval=True, nodefault=True, funcs=True, depth=3)
+        big = rng.random() < 0.03
+        so = G.SchemaOpts(keystrval=True, nodefault=True, funcs=True, depth=4 if big else 3, maxopts=18 if big else 5, null_sub=True)
         decls = G.gen_schema(rng, so)
         decorate(rng, decls)
         comments = rng.random() < 0.4
@@ -123,7 +124,7 @@ def script(spec):
         sidA = schema.emit(decls, L, [0])
         L.append('init 0 %d %d' % (sidA, fl))
         L.append('poison')
-        sidB = schema.emit(decls, L, [24])
+        sidB = schema.emit(decls, L, [512])
         L.append('init 1 %d %d' % (sidB, fl))
         for st in spec['steps']:
             for ctx in (0, 1):
